@@ -37,22 +37,31 @@ class Hang(Exception):
     pass
 
 
-def run_interleaved(env, loc, parts, schedule, deadline=90):
-    """returns (actual sequence, [child outputs], final state child output)"""
+def run_interleaved(env, loc, parts, schedule, deadline=90, groups=None):
+    """parts: one session per participant; groups: lists of participant indices living in ONE process
+    (threads); default: every participant is its own process.
+    returns {actual sequence, [participant outputs], final state}"""
     n = len(parts)
-    procs, c2s, s2c, bufs = [], [], [], []
-    for i, sess in enumerate(parts):
-        r1, w1 = os.pipe()   # child -> scheduler
-        r2, w2 = os.pipe()   # scheduler -> child
-        spec = base.child_spec(env.mods, loc, sess, mode="interleave", rfd=r2, wfd=w1, state=False)
+    groups = groups or [[i] for i in range(n)]
+    procs, c2s, s2c, bufs = [], [None] * n, [None] * n, [b""] * n
+    for grp in groups:
+        fds, subs = [], []
+        for i in grp:
+            r1, w1 = os.pipe()   # child -> scheduler
+            r2, w2 = os.pipe()   # scheduler -> child
+            c2s[i], s2c[i] = r1, w2
+            fds += [r2, w1]
+            subs.append({"actions": parts[i]["acts"], "cb": parts[i].get("cb"), "rfd": r2, "wfd": w1})
+        sess = parts[grp[0]]
+        if len(grp) == 1:
+            spec = base.child_spec(env.mods, loc, sess, mode="interleave", rfd=subs[0]["rfd"], wfd=subs[0]["wfd"], state=False)
+        else:
+            spec = base.child_spec(env.mods, loc, sess, mode="interleave", state=False, threads=subs)
         p = subprocess.Popen([common.PY, base.CHILD, json.dumps(spec)], stdout=subprocess.PIPE, stderr=subprocess.PIPE,
-                             text=True, env=common.impl_env(), pass_fds=[r2, w1])
-        os.close(r2)
-        os.close(w1)
-        procs.append(p)
-        c2s.append(r1)
-        s2c.append(w2)
-        bufs.append(b"")
+                             text=True, env=common.impl_env(), pass_fds=fds)
+        for fd in fds:
+            os.close(fd)
+        procs.append((p, grp))
     t_end = time.time() + deadline
     state = ["unknown"] * n
 
@@ -93,16 +102,19 @@ def run_interleaved(env, loc, parts, schedule, deadline=90):
             actual.append(nxt)
             state[nxt] = "unknown"
             wait_msg(nxt)
-        for i, p in enumerate(procs):
+        for p, grp in procs:
             o, e = p.communicate(timeout=30)
             try:
-                outs[i] = json.loads(o.strip().splitlines()[-1])
+                d = json.loads(o.strip().splitlines()[-1])
+                res_list = d["threads"] if len(grp) > 1 else [d]
             except Exception:
-                outs[i] = {"harness_error": "rc=%s %s" % (p.returncode, e[-500:]), "pid": p.pid}
+                res_list = [{"harness_error": "rc=%s %s" % (p.returncode, e[-500:]), "pid": p.pid}] * len(grp)
+            for i, r in zip(grp, res_list):
+                outs[i] = r
     except (Hang, subprocess.TimeoutExpired) as e:
-        for p in procs:
+        for p, _ in procs:
             p.kill()
-        for p in procs:
+        for p, _ in procs:
             p.communicate()
         return {"hang": str(e)}
     finally:
@@ -127,6 +139,12 @@ def scenarios():
         "call_clear": ([S(1, [C(1)])], [S(1, [C(1), C(2)]), S(1, [{"a": "clear"}])]),
         "call_invalidate": ([S(1, [C(1)], cb="valid")], [S(1, [C(1)], cb="invalid"), S(1, [C(1)], cb="valid")]),
         "call_call_clear": ([S(1, [C(3)])], [S(1, [C(1)]), S(1, [C(1)]), S(1, [{"a": "clear"}])]),
+        # eviction racing a load and a store: reader of cached entries, writer of a new one, reducer
+        "read_write_reduce": ([S(1, [C(1), C(2)])], [S(1, [C(1), C(2)]), S(1, [C(3), C(1)]), S(1, [dict(red)])]),
+        # two writers of one entry in ONE process (threads): same pid, different thread id in the temporary name
+        "threads_same_key": ([S(1, [C(3)])], [S(1, [C(1), C(2)]), S(1, [C(1), C(2)])], [[0, 1]]),
+        # ... and a third writer in another process
+        "threads_and_process": ([S(1, [C(3)])], [S(1, [C(1)]), S(1, [C(1)]), S(1, [C(1)])], [[0, 1], [2]]),
     }
 
 
@@ -163,7 +181,8 @@ def evicted_from_log(log):
 
 
 def prepare(env, name, sc):
-    prelude, parts = sc
+    prelude, parts = sc[0], sc[1]
+    groups = sc[2] if len(sc) > 2 else None
     loc = env.fresh("c11base_" + name)
     pidmap, tid = {}, 0
     pre = []
@@ -181,18 +200,19 @@ def prepare(env, name, sc):
         r = base.run_child(base.child_spec(env.mods, d, sess))
         lens.append(len(r.get("log", [])) or 40)
         shutil.rmtree(d, ignore_errors=True)
-    return {"name": name, "base": loc, "pidmap": pidmap, "pre": pre, "parts": parts, "tid0": tid, "lens": lens}
+    return {"name": name, "base": loc, "pidmap": pidmap, "pre": pre, "parts": parts, "tid0": tid, "lens": lens,
+            "groups": groups}
 
 
 def run_case(env, prep, sched):
     loc = env.fresh("c11_" + prep["name"])
     base.copy_dir(prep["base"], loc)
-    res = run_interleaved(env, loc, prep["parts"], sched)
+    res = run_interleaved(env, loc, prep["parts"], sched, groups=prep.get("groups"))
     if "hang" in res:      # retried once; then reported as inconclusive, never as a violation
         shutil.rmtree(loc, ignore_errors=True)
         loc = env.fresh("c11_" + prep["name"])
         base.copy_dir(prep["base"], loc)
-        res = run_interleaved(env, loc, prep["parts"], sched)
+        res = run_interleaved(env, loc, prep["parts"], sched, groups=prep.get("groups"))
     shutil.rmtree(loc, ignore_errors=True)
     res["schedule"] = sched
     return res
@@ -268,7 +288,9 @@ def compare(prep, res, m):
     mps, mfs, mtr = m
     pm = dict(prep["pidmap"])
     for i, o in enumerate(res["outs"]):
-        pm[o.get("pid", -i - 1)] = prep["tid0"] + 1 + i
+        pm[o.get("wid", "x%d" % i)] = prep["tid0"] + 1 + i
+        if not prep.get("groups"):
+            pm[o.get("pid", -i - 1)] = prep["tid0"] + 1 + i
     bad = []
     for i, (sess, out) in enumerate(zip(prep["parts"], res["outs"])):
         acts = [a for a in sess["acts"] if a["a"] != "atime"]
@@ -309,6 +331,7 @@ def run(ctx):
         "the scheduler and canonicalisation in harness/props/c11.py / c05.py",
         "writer ids (thread id, pid) of different participants differ; all participants run the same source version",
     ]
+    gen_tie = base.source_order_tie(ctx)
     proofs_ok = ctx.standard_proof_stage("C11", extra_targets=["Model/FsShow.vo"])
     scs = scenarios()
     budget = 45 if quick else 400
@@ -355,7 +378,7 @@ def run(ctx):
             disagreements.append({"scenario": prep["name"], "schedule": res["actual"], "what": b})
         for what, sig in judge(prep, res):
             rep = {"kind": "interleave", "scenario": prep["name"], "prelude": scs[prep["name"]][0], "parts": prep["parts"],
-                   "schedule": res["actual"]}
+                   "groups": prep.get("groups"), "schedule": res["actual"]}
             n_exc += 1
             if sig == "B":
                 known_b.append((what, rep))
@@ -381,8 +404,9 @@ def run(ctx):
     ctx.finish({
         "evaluations": len(owners),
         "distinct_nontrivial": len(nontrivial),
-        "rule": "7 scenarios (call||call same key cold/warm, different keys, call||reduce_size, call||Memory.clear, "
-                "invalidating call||call, call||call||clear) x schedules: every single-switch schedule (sampled evenly when more than "
+        "rule": "10 scenarios (call||call same key cold/warm, different keys, call||reduce_size, call||Memory.clear, "
+                "invalidating call||call, call||call||clear, reader||writer||reducer, two THREADS of one process writing one entry, "
+                "two threads + another process) x schedules: every single-switch schedule (sampled evenly when more than "
                 "the budget), random double-switch schedules, random block schedules for 3 participants. non-trivial = the executed "
                 "sequence has >= 2 switches; distinct by (scenario, executed sequence)",
         "samples": [{"scenario": owners[0][0]["name"], "schedule": owners[0][1]["actual"][:60],
@@ -390,6 +414,7 @@ def run(ctx):
         "traces_validated_against_impl": len(vals),
         "runs_per_scenario": dist, "schedules_hitting_F14": len(known), "inconclusive_timeouts": inconclusive,
         "disagreements": len(disagreements),
+        "source_order_tie": gen_tie,
         "trusted_base": trusted,
         "exhaustive": False,
     }, assumptions=[
@@ -409,7 +434,7 @@ def replay(ctx, path):
         print("replay file names a broken proof/correspondence, nothing to execute:", rep.get("kind"))
         return 1
     env = base.Env(ctx)
-    prep = prepare(env, rep["scenario"], (rep["prelude"], rep["parts"]))
+    prep = prepare(env, rep["scenario"], (rep["prelude"], rep["parts"], rep.get("groups")))
     res = run_case(env, prep, rep["schedule"])
     if "hang" in res:
         print("replay: inconclusive (timeout)")
